@@ -449,8 +449,15 @@ fn check_type_relation<T: TypeLookup>(
                 fields: fields2,
             },
         ) => {
-            // Names must match if both have names
-            if name1.is_some() && name2.is_some() && name1 != name2 {
+            // A named pattern only admits tuples of that name. For assignability (ALL) an
+            // unnamed self is not assignable to it, since it still contains tuples of every
+            // name; for overlap (ANY) the two are disjoint only when both names are present
+            // and differ.
+            let names_clash = match mode {
+                UnionMode::All => name2.is_some() && name1 != name2,
+                UnionMode::Any => name1.is_some() && name2.is_some() && name1 != name2,
+            };
+            if names_clash {
                 return false;
             }
 
